@@ -365,6 +365,23 @@ static std::conditional_t<std::is_void_v<R>, void, tainted<R, Sbx>> cbk(RS&, tai
     return tainted<R, Sbx>(app_val<R>(g_cbk_ret_host));
   }
 }
+// the same callback DECLARED with the opaque wrapper forms (register_callback accepts both)
+template<typename R, typename... A>
+static std::conditional_t<std::is_void_v<R>, void, tainted_opaque<R, Sbx>> cbk_opaque(RS&, tainted_opaque<A, Sbx>... a)
+{
+  g_cbk_count++;
+  (g_cbk_seen.push_back(host_val(from_opaque(a).UNSAFE_unverified())), ...);
+  if constexpr (std::is_void_v<R>) {
+    return;
+  } else if constexpr (std::is_pointer_v<R>) {
+    if (g_cbk_ret_host < 0) {
+      return tainted<R, Sbx>(nullptr).to_opaque();
+    }
+    return sb->UNSAFE_accept_pointer(app_val<R>(g_cbk_ret_host)).to_opaque();
+  } else {
+    return tainted<R, Sbx>(app_val<R>(g_cbk_ret_host)).to_opaque();
+  }
+}
 template<typename GR, typename... GA, size_t... I>
 static void g_call_cbk_impl(std::index_sequence<I...>)
 {
@@ -406,8 +423,16 @@ static std::vector<W> guest_candidates()
   return v;
 }
 
+template<bool Opaque, typename R, typename... A>
+static void run_cb_sig_impl(const char* name, std::mt19937_64& rng);
 template<typename R, typename... A>
 static void run_cb_sig(const char* name, std::mt19937_64& rng)
+{
+  run_cb_sig_impl<false, R, A...>(name, rng);
+  run_cb_sig_impl<true, R, A...>(name, rng);
+}
+template<bool Opaque, typename R, typename... A>
+static void run_cb_sig_impl(const char* name, std::mt19937_64& rng)
 {
   if constexpr ((is_fnp<A> || ...) || is_fnp<R>) {
     return; // callbacks taking or returning callbacks are not part of this family
@@ -432,7 +457,13 @@ static void run_cb_sig(const char* name, std::mt19937_64& rng)
         }
       }
     }
-    auto cb = sb->register_callback(cbk<R, A...>);
+    auto cb = [&] {
+      if constexpr (Opaque) {
+        return sb->register_callback(cbk_opaque<R, A...>);
+      } else {
+        return sb->register_callback(cbk<R, A...>);
+      }
+    }();
     g_cbk_entry = (uint32_t)cb.UNSAFE_sandboxed(*sb);
     std::string callee = std::string("cbk_") + name;
     size_t nret = 0;
@@ -446,7 +477,7 @@ static void run_cb_sig(const char* name, std::mt19937_64& rng)
       g_abort_flag = false;
       sb->template INTERNAL_invoke_with_func_name<void()>(callee.c_str());
       tr::Ev e("cbcall");
-      e.str("sig", name).str("out", g_abort_flag ? "abort" : "ok").num("count", g_cbk_count).boolean("trap", g_cbk_trap);
+      e.str("sig", name).str("decl", Opaque ? "opaque" : "tainted").str("out", g_abort_flag ? "abort" : "ok").num("count", g_cbk_count).boolean("trap", g_cbk_trap);
       std::string args = "[";
       size_t i = 0;
       auto add = [&](auto tag) {
